@@ -69,6 +69,20 @@ func checkC03(c *Ctx) {
 	checkExternalNamesQualified(c, "C03.c", f)
 	checkListOrder(c, "C03.e", f)
 	r.Rule("C03.f", "the type-parameter list of every declaration value is the declared list (a parameter, an existing .Tparams, or the identifiers the parser read between < and >): explicit type arguments bind by position", 8)
+	// root statements: every kind goes to its own emitter, package_info emits nothing; and the text the emitters
+	// produce is the text that is written (no pass of the driver rewrites declarations or imports afterwards)
+	{
+		var ps []pin
+		for _, p := range c01Pins {
+			switch p.fn {
+			case "RootStmtToGo", "dsToGo", "mdToGo", "imToGo", "pmToGo", "lfdToGo":
+				ps = append(ps, p)
+			}
+		}
+		c.checkPins(f, "C03.ab", ps)
+		c.checkPins(f, "C03.ab", c04ImportPins[:1])
+		checkWrittenTextIsEmitted(c, f, "C03.ab")
+	}
 	checkTparamsProvenance(c, "C03.f", f)
 	r.Import("C01.m", "C03.g", "a declaration is emitted under the name written in the source: the name stored in every Var / pattern node is the identifier the lexer read at a position reached by consuming specific tokens (the C01.m rule) — a let called `rec`, `mutable`, … is still that let", 6, func() { checkBinderNames(c, f) })
 	checkRelevantReviewedForms(c, f, "C03.z", "the output buffer (functions that write emitted Go text)", primSet("buf.Write", "buf.New", "buf.String"), 18)
